@@ -72,6 +72,23 @@ func imod(a int64, m int) int {
 // returns the new root, the path of the node hit and whether the operator was
 // applicable to that node (inapplicable mutations return the clone unchanged).
 func Apply(root *Node, m Mutation) (*Node, string, bool) {
+	if m.Op == "auto" {
+		// pick an operator applicable to the addressed node: operator index and
+		// operator argument are both derived from Arg
+		a := m.Arg
+		if a < 0 {
+			a = -a
+		}
+		start := int(a % int64(len(Ops)))
+		arg := m.Arg / int64(len(Ops))
+		for i := 0; i < len(Ops); i++ {
+			op := Ops[(start+i)%len(Ops)]
+			if out, p, ok := Apply(root, Mutation{Node: m.Node, Op: op, Arg: arg}); ok {
+				return out, p + "#" + op, true
+			}
+		}
+		return Clone(root), "", false
+	}
 	root = Clone(root)
 	refs := Refs(root)
 	if len(refs) == 0 {
